@@ -216,7 +216,7 @@ def gen_secret(r, cls, length=None, like=None):
         return r.choice("23456789") + "".join(r.choice("0123456789") for _ in range(n - 1))
     if cls == "j9p-hex":
         n = length or r.randint(10, 13)
-        return r.choice("abcdef") + "".join(r.choice("0123456789abcdef") for _ in range(n - 2)) + "f"
+        return r.choice("abcdefABCDEF") + "".join(r.choice("0123456789abcdefABCDEF") for _ in range(n - 2)) + r.choice("fF")
     if cls == "c9":        # Cisco type 9 (scrypt): $9$ prefix but not a Juniper encoding (inner '$')
         return "$9$" + "".join(r.choice(B64) for _ in range(14)) + "$" + "".join(r.choice(B64) for _ in range(43))
     if cls == "aws":
